@@ -496,7 +496,7 @@ Definition run_spec (x : xval) : xval :=
   end.
 
 (** method-level: input (L op ...), op = (L (N code) (N arg)); output after every op:
-    (L count flag finished signalled-hooks) *)
+    (L count flag finished (L hook-status ...) initiate-sent), hook status 0 registered / 1 signalled / 2 acknowledged *)
 Definition d_mop (x : xval) : option mop :=
   match x with
   | XL [XN 0; XN _] => Some MAdd
@@ -508,7 +508,9 @@ Definition d_mop (x : xval) : option mop :=
   | _ => None
   end%N.
 Definition x_mobs (s : state) : xval :=
-  XL [x_Z (gC s); x_bool (gS s); x_bool (finished s); x_bool (pre_sent s); x_bool (init_sent s)].
+  XL [x_Z (gC s); x_bool (gS s); x_bool (finished s);
+      XL (map (fun p => XN (match p with HNew => 0 | HAcked => 2 | _ => if pre_sent s then 1 else 0 end)%N) (hooks s));
+      x_bool (init_sent s)].
 Fixpoint mtrace (s : state) (ops : list mop) : list xval :=
   match ops with
   | [] => []
